@@ -34,6 +34,10 @@ def build_problem(ps):
         return gen.saddle_problem(rng, ps[2], ps[3])
     if kind == "simplex":
         return gen.simplex_qp(rng, ps[2])
+    if kind == "narrowrow":
+        return gen.narrowrow_problem(rng, float(ps[2]))
+    if kind == "expgrowth":
+        return gen.expgrowth_problem(rng, ps[2], cons=bool(ps[3]))
     if kind == "logdomain":
         return gen.logdomain_problem(rng, ps[2], cons=bool(ps[3]))
     if kind == "equalmult":
@@ -233,7 +237,9 @@ def run_group(gs):
             solver.lin_fault = make_lin_fault(rs.get("lin_fault"))
             solver._wellposed = bool(rs.get("wellposed", False))
             try:
-                res = solver.solve(np.array(x0, copy=True), np.array(y0, copy=True))
+                om = rs.get("omit_start")      # "both" | "x" | "y": the start vectors the caller leaves out (defaults apply)
+                res = solver.solve(None if om in ("both", "x") else np.array(x0, copy=True),
+                                   None if om in ("both", "y") else np.array(y0, copy=True))
                 status = res.status.name
             except MachineryError:
                 raise
